@@ -307,3 +307,136 @@ def intermediate(repo):
     res.samples = [f"{f.name}: loop over {ast.unparse(loops[0].iter)}"]
     res.analysed = [HG]
     return res
+
+
+# ---- R-BOUNDARY: documented boundary predicates ------------------------------------------------
+def fold_bool(node, env):
+    """Folds a boolean test over integer variables (comparison chains, and/or/not)."""
+    if isinstance(node, ast.BoolOp):
+        vals = [fold_bool(v, env) for v in node.values]
+        return all(vals) if isinstance(node.op, ast.And) else any(vals)
+    if isinstance(node, ast.UnaryOp) and isinstance(node.op, ast.Not):
+        return not fold_bool(node.operand, env)
+    if isinstance(node, ast.Compare):
+        left = fold(node.left, env)
+        for op, comp in zip(node.ops, node.comparators):
+            right = fold(comp, env)
+            ok = {ast.Lt: left < right, ast.LtE: left <= right, ast.Gt: left > right, ast.GtE: left >= right,
+                  ast.Eq: left == right, ast.NotEq: left != right}.get(type(op))
+            if ok is None:
+                raise Unfoldable("cmp")
+            if not ok:
+                return False
+            left = right
+        return True
+    raise Unfoldable(type(node).__name__)
+
+
+def _rejecting_if(func, var_hint):
+    """The `if <test over var>:` statements of a function whose body appends/returns an error."""
+    out = []
+    for n in walk_no_nested_funcs(func.node):
+        if isinstance(n, ast.If):
+            names = {x.id for x in ast.walk(n.test) if isinstance(x, ast.Name)}
+            body = "\n".join(ast.unparse(s) for s in n.body)
+            if var_hint in names and "error.error(" in body:
+                out.append(n)
+    return out
+
+
+def boundary(repo):
+    res = RuleResult("R-BOUNDARY")
+    window = range(-3, 70)
+
+    def accepted(test, var, extra=None):
+        acc = set()
+        for v in window:
+            env = {var: v}
+            env.update(extra or {})
+            try:
+                if not fold_bool(test, env):
+                    acc.add(v)
+            except Unfoldable:
+                return None
+        return acc
+
+    def expect(rel, fname, var, want, what, extra=None):
+        m = repo.mod(rel)
+        f = m.funcs.get(fname)
+        if f is None:
+            raise AnalysisError(f"{rel}: {fname} vanished")
+        ifs = _rejecting_if(f, var)
+        res.instances += 1
+        if not ifs:
+            res.add(f"{rel}|{fname}|{var}|missing", f"{fname} no longer rejects out-of-range `{var}` ({what})", rel, f.line, fname)
+            return
+        for n in ifs:
+            acc = accepted(n.test, var, extra)
+            if acc is None:
+                continue
+            if acc == {v for v in window if want(v)}:
+                if len(res.samples) < 4:
+                    res.samples.append(f"{fname}: rejects `{ast.unparse(n.test)}` ({what})")
+                return
+        n = ifs[0]
+        acc = accepted(n.test, var, extra)
+        lo = min(acc) if acc else None
+        hi = max(acc) if acc else None
+        res.add(f"{rel}|{fname}|{var}|boundary", f"{fname} rejects `{ast.unparse(n.test)}`, i.e. accepts {var} in "
+                f"[{lo if lo != window[0] else '-inf'}, {hi if hi != window[-1] else '+inf'}]; documented rule: {what}",
+                rel, n.lineno, fname)
+
+    AC = "compiler/front_end/attribute_checker.py"
+    expect(AC, "_verify_width_attribute_on_enum", "max_bits_value", lambda v: 1 <= v <= 64,
+           "'maximum_bits' on an enum must be between 1 and 64")
+    expect(CONS, "_check_size_of_bits", "fixed_size", lambda v: v <= 64, "`bits` types must be 64 bits or smaller")
+    expect(CONS, "_check_physical_type_requirements", "size", lambda v: 1 <= v <= 40,
+           "an enum field must be between 1 and maximum_bits bits", extra={"max_enum_size": 40})
+    # enum value representability: ranges per signedness and maximum_bits
+    cons = repo.mod(CONS)
+    f = cons.funcs.get("_check_that_enum_values_are_representable")
+    if f is None:
+        raise AnalysisError("constraints._check_that_enum_values_are_representable vanished")
+    ranges = {}
+    for n in walk_no_nested_funcs(f.node):
+        if isinstance(n, ast.If) and isinstance(n.test, ast.Name):
+            for branch, signed in ((n.body, True), (n.orelse, False)):
+                for st in branch:
+                    if isinstance(st, ast.Assign) and isinstance(st.value, ast.Tuple) and len(st.value.elts) == 2:
+                        ranges[signed] = (st.value.elts, n.test.id)
+    if len(ranges) != 2:
+        raise AnalysisError("enum range tuples not found")
+    bits_var = None
+    for n in walk_no_nested_funcs(f.node):
+        if isinstance(n, ast.Assign) and isinstance(n.value, ast.Call) and "ENUM_MAXIMUM_BITS" in ast.unparse(n.value):
+            bits_var = n.targets[0].id
+    for signed, (elts, _) in ranges.items():
+        for w in range(1, 65):
+            res.instances += 1
+            try:
+                lo, hi = fold(elts[0], {bits_var: w}), fold(elts[1], {bits_var: w})
+            except Unfoldable:
+                res.add(f"{CONS}|{f.name}|opaque", "enum range is not a closed expression of maximum_bits", CONS, f.line, f.name)
+                break
+            if (lo, hi) != type_range(signed, w):
+                res.add(f"{CONS}|{f.name}|{'signed' if signed else 'unsigned'}|range",
+                        f"{f.name}: a {'signed' if signed else 'unsigned'} enum with maximum_bits={w} is allowed values in "
+                        f"[{lo}, {hi}]; {w} bits hold exactly {list(type_range(signed, w))}", CONS, f.line, f.name)
+                break
+    # the membership test must be inclusive on both ends
+    src = cons.seg(f.node)
+    res.instances += 1
+    if not re.search(r"enum_range\[0\]\s*<=\s*\w+(\[\d\])?\s*<=\s*enum_range\[1\]", src):
+        res.add(f"{CONS}|{f.name}|inclusive", f"{f.name}: values are not tested with `range[0] <= v <= range[1]`", CONS, f.line, f.name)
+    # the is_signed flag tested is the one read from the is_signed attribute
+    # cross-language: the runtime's BitBlock limit equals the front end's `bits` limit
+    rt = repo.read("runtime/cpp/emboss_memory_util.h")
+    m = re.search(r"static_assert\(\s*kBufferSizeInBits\s*<=\s*(\d+)", rt)
+    res.instances += 1
+    if not m:
+        res.add("runtime|BitBlock|limit", "BitBlock no longer asserts an upper limit on its size", "runtime/cpp/emboss_memory_util.h")
+    elif int(m.group(1)) != 64:
+        res.add("runtime|BitBlock|limit", f"BitBlock accepts up to {m.group(1)} bits, the front end admits `bits` types up to 64",
+                "runtime/cpp/emboss_memory_util.h")
+    res.analysed = [AC, CONS, "runtime/cpp/emboss_memory_util.h"]
+    return res
